@@ -27,7 +27,9 @@ LEVEL = "exploration"
 PROFILE = {"driver_cmp": True, "driver": True, "aux_policy": "clean", "auxes": (0, 2), "frames": (2, 7), "depth": 4, "slaves": (0, 1),
            "aux_owner": "taskable", "aux_place": "first", "let_in_aux": False, "aux_completes": True,
            "kinds": {"data": 6, "go": 9, "let": 1, "timeout": 1, "repeat": 1, "aux": 2, "auxif": 3, "bid": 2, "done": 2, "fiat": 1},
-           "needs": {"cmp": 4, "bool": 0, "elapsed": 2, "recurred": 5, "done": 1, "status": 0, "auxdone": 1}}
+           # marker conditions give transitions transit actions (which must run before the exits)
+           "one_marker_per_act": True,
+           "needs": {"cmp": 4, "bool": 0, "elapsed": 2, "recurred": 5, "done": 1, "status": 0, "auxdone": 1, "updated": 2, "changed": 2}}
 
 
 def _shapes(prog, r):
